@@ -92,16 +92,17 @@ struct Case {
 	int arr = 0;
 	unsigned trimask = 0;
 	bool uv = false, nrm = false;
-	bool populated = false;
+	int base = 0; // 0 as created, 1 every attribute but eye data populated, 2 eye data populated too (BSTriShape family; in-memory checks only)
 	std::string setter;
 	int T = 0; // boundary
 };
 
+static const char* const BASES[] = {"fresh", "populated", "populated+eye"};
 static J case_json(const Case& c) {
 	J j = J::obj();
 	j.set("family", c.fam).set("version", g_vers[c.ver].name).set("V", c.V).set("arr", c.arr).set("uv", c.uv).set("normals", c.nrm);
 	if (c.fam == "small") j.set("trimask", (long long) c.trimask);
-	if (c.fam == "setter") j.set("trimask", (long long) c.trimask).set("populated", c.populated).set("setter", c.setter);
+	if (c.fam == "setter") j.set("trimask", (long long) c.trimask).set("base", BASES[c.base]).set("setter", c.setter);
 	if (c.fam == "boundary") j.set("T", c.T);
 	return j;
 }
@@ -115,7 +116,7 @@ static Case case_from_json(const J& j) {
 	c.uv = j["uv"].b;
 	c.nrm = j["normals"].b;
 	c.trimask = (unsigned) j["trimask"].i64();
-	c.populated = j["populated"].b;
+	for (int b = 0; b < 3; b++) if (j["base"].str() == BASES[b]) c.base = b;
 	c.setter = j["setter"].str();
 	c.T = (int) j["T"].i64();
 	return c;
@@ -181,7 +182,7 @@ static Mesh make_big_mesh(int V, int T, int arr, bool uv, bool nrm) {
 }
 
 static uint64_t mesh_hash(const Case& c, const Mesh& m) {
-	uint64_t h = vf::fnv(std::string(g_vers[c.ver].name) + "/" + c.fam + "/" + c.setter + (c.populated ? "/p" : "/f"));
+	uint64_t h = vf::fnv(std::string(g_vers[c.ver].name) + "/" + c.fam + "/" + c.setter + "/" + BASES[c.base]);
 	unsigned char flags[2] = {(unsigned char) m.uv, (unsigned char) m.nrm};
 	h = vf::fnv(flags, 2, h);
 	if (!m.verts.empty()) h = vf::fnv(m.verts.data(), m.verts.size() * sizeof(Vector3), h);
@@ -468,7 +469,7 @@ static void run_setter_case(const Case& c, Stats& st) {
 	const float* nlat = v.bs ? LU : L9; // byte attributes can only hold |x| <= 1
 	const float* clat = v.bs ? LC : L9;
 	const int a1 = (c.arr + 2) % 9, a2 = (c.arr + 5) % 9;
-	if (c.populated) {
+	if (c.base >= 1) {
 		// bring every attribute into existence first so that "resizes nothing else" has something to bite on
 		std::vector<Vector2> u;
 		for (int i = 0; i < V; i++) u.push_back(lat_uv(i, a1));
@@ -479,10 +480,13 @@ static void run_setter_case(const Case& c, Stats& st) {
 		std::vector<Color4> cc;
 		for (int i = 0; i < V; i++) cc.push_back(Color4(clat[(i + a1) % 9], clat[(i + a1 + 2) % 9], clat[(i + a1 + 4) % 9], clat[(i + a1 + 6) % 9]));
 		nif.SetColorsForShape(shape, cc);
-		std::vector<float> ee;
-		for (int i = 0; i < V; i++) ee.push_back(L9[(i + a1 + 1) % 9]);
-		NifFile::SetEyeDataForShape(shape, ee);
-		st.add("setter_calls", 6);
+		st.add("setter_calls", 5);
+		if (c.base == 2) {
+			std::vector<float> ee;
+			for (int i = 0; i < V; i++) ee.push_back(L9[(i + a1 + 1) % 9]);
+			NifFile::SetEyeDataForShape(shape, ee);
+			st.add("setter_calls");
+		}
 	}
 	Snap before = snapshot(nif, shape);
 	check_sizes(x, before, "before-setter");
@@ -576,8 +580,11 @@ static void run_setter_case(const Case& c, Stats& st) {
 	//    not part of the statement for setters (e.g. tangents are only stored when normals exist); it is
 	//    recorded as an observation, not as a violation.
 	NifFile re;
-	NiShape* rs = g_no_reload ? nullptr : reload(nif, re, x, "after-" + S);
-	if (!g_no_reload) st.add("save_loads");
+	// base 2 never saves: every Save of a shape with VF_EYEDATA runs into the shift in VertexDesc::SetAttributeOffset
+	// (reported once per eye-data setter case); repeating that crash for every other setter adds nothing
+	const bool do_reload = !g_no_reload && c.base != 2;
+	NiShape* rs = do_reload ? reload(nif, re, x, "after-" + S) : nullptr;
+	if (do_reload) st.add("save_loads");
 	if (rs) {
 		Snap r = snapshot(re, rs);
 		check_sizes(x, r, "reload-after-" + S);
@@ -587,7 +594,7 @@ static void run_setter_case(const Case& c, Stats& st) {
 			st.note(vf::strf("observed: value set with %s on %s (normals %s) is not kept by Save+Load", S.c_str(), storage_class(v), after.pN ? "present" : "absent"));
 		}
 	}
-	st.distinct("outcomes", vf::strf("%s:%s:%s:%s", v.name, S.c_str(), c.populated ? "p" : "f", x.failed ? "FAIL" : "ok"));
+	st.distinct("outcomes", vf::strf("%s:%s:%s:%s", v.name, S.c_str(), BASES[c.base], x.failed ? "FAIL" : "ok"));
 }
 
 // ---------------------------------------------------------------- dispatch
@@ -638,9 +645,9 @@ static std::vector<Case> unit_cases(const Unit& U, bool thorough) {
 		for (int arr = 0; arr < 9; arr++)
 			for (int uv = 0; uv < 2; uv++)
 				for (int nr = 0; nr < 2; nr++)
-					for (int pop = 0; pop < 2; pop++) {
+					for (int base = 0; base < (g_vers[U.ver].bs ? 3 : 2); base++) {
 						Case c;
-						c.fam = "setter"; c.ver = U.ver; c.V = U.V; c.arr = arr; c.trimask = (1u << npool) - 1; c.uv = uv; c.nrm = nr; c.populated = pop;
+						c.fam = "setter"; c.ver = U.ver; c.V = U.V; c.arr = arr; c.trimask = (1u << npool) - 1; c.uv = uv; c.nrm = nr; c.base = base;
 						c.setter = SETTERS[U.setter];
 						out.push_back(c);
 					}
@@ -738,7 +745,7 @@ int main(int argc, char** argv) {
 				 vf::strf("complete product, no sampling. small: %zu versions x V=1..%d x 9 cyclic arrangements of the lattice {0,1,-1,0.1,1/3,1000.5,65504,1e-5,-0.0} "
 						  "(vertex i = (L[i+a], L[2i+a+1], L[4i+a+2]), pairwise distinct) x every subset of the fixed triangle pool of that V (V=3: 2, V>=4: 6 triangles; "
 						  "V<3: empty) x UVs present/absent x normals present/absent (unit vectors built from lattice values, and the zero vector). "
-						  "setter: same V/arrangements/presence, full pool as triangle list x base {as created, all attributes populated} x %d setter/getter pairs "
+						  "setter: same V/arrangements/presence, full pool as triangle list x base {as created; UVs, normals, tangents, bitangents, colours populated; the same plus eye data (BSTriShape family, checked in memory only)} x %d setter/getter pairs "
 						  "(positions same count/+1/-1, uvs, normals, tangents, bitangents, colours, eye data, 4 triangle lists, bounds). "
 						  "boundary: V in {1,65535,65536} x T in {0,65535,65536} x %s. "
 						  "distinct_nontrivial = distinct (version, family, setter, base, mesh) inputs by value (hash of all vertex/triangle/UV/normal bytes); every case is non-trivial "
